@@ -89,6 +89,9 @@ type cffInfo struct {
 	GSubrs      *cffIndex
 	CharStrings *cffIndex
 	LSubrs      []*cffIndex // local subroutines of every Private DICT
+	// inner structures walked by the "walked" family (absolute positions, 0 if absent / predefined)
+	FDSelect, Charset, Encoding int
+	NFD                         int // number of font dicts of the FDArray
 }
 
 func readIndex(d []byte, pos int, count32 bool, limit int) *cffIndex {
@@ -249,8 +252,18 @@ func parseCFF(d []byte, t tableRef) (info *cffInfo) {
 		return nil
 	}
 	private(top[18], 0)
+	if v := top[1237]; len(v) == 1 && v[0] > 0 && T+v[0] < limit {
+		info.FDSelect = T + v[0]
+	}
+	if v := top[15]; len(v) == 1 && v[0] > 2 && T+v[0] < limit {
+		info.Charset = T + v[0]
+	}
+	if v := top[16]; len(v) == 1 && v[0] > 1 && T+v[0] < limit {
+		info.Encoding = T + v[0]
+	}
 	if fda := top[1236]; len(fda) == 1 && fda[0] > 0 { // FDArray: one Private DICT per font dict
 		if fds := readIndex(d, T+fda[0], info.V2, limit); fds != nil {
+			info.NFD = fds.Count
 			for i := 0; i < fds.Count && i < 64; i++ {
 				private(dictOps(fds.item(d, i))[18], 0)
 			}
